@@ -174,8 +174,8 @@ class ForcePlatformsDataBlock(Block):
             ForcePlatformData._build(stream, format, n_frames) for _ in range(n_plats)
         ]
         block = ForcePlatformsDataBlock(start_time, frequency, n_frames)
-        block._plat_map = plat_map
-        block._platforms = platforms
+        for channel, platform in zip(plat_map, platforms):
+            block.add_platform(platform, channel=int(channel))
 
         return block
 
